@@ -430,12 +430,32 @@ func (h *harness) suPatternPhase(patterns []int) {
 		p   int
 		cfg nodeCfg
 	}
+	// quick tier: pebblev2 runs the 27 patterns of the orthogonal array OA(27,7,3,2) (columns = the linear forms a, b, c,
+	// a+b, a+2b, a+c, a+2c over Z3: every pair of sections sees every pair of levels); the record level already wrote all
+	// 2187 patterns on pebblev2. Thorough: all 2187 on all four configurations.
+	oa := map[int]bool{}
+	for a := 0; a < 3; a++ {
+		for b := 0; b < 3; b++ {
+			for c := 0; c < 3; c++ {
+				lv := []int{a, b, c, (a + b) % 3, (a + 2*b) % 3, (a + c) % 3, (a + 2*c) % 3}
+				p := 0
+				for k := 6; k >= 0; k-- {
+					p = p*3 + lv[k]
+				}
+				oa[p] = true
+			}
+		}
+	}
 	var jobs []job
 	for _, p := range patterns {
 		for _, c := range nodeCfgs {
+			if c.be != 0 && h.r.Quick() && !oa[p] {
+				continue
+			}
 			jobs = append(jobs, job{p, c})
 		}
 	}
+	h.r.Set("su_pattern_store_jobs", int64(len(jobs)))
 	ev.Par(len(jobs), workers(), func(i int) {
 		if h.r.OutOfTime() {
 			h.r.Incomplete("state-update pattern sweep through Store cut by the time budget")
@@ -476,16 +496,19 @@ func (h *harness) suPatternPhase(patterns []int) {
 			h.r.Infra("pattern %v: hash: %v", s, err)
 		}
 		var store db.KeyValueStore
+		var bc *blockchain.Blockchain
 		if j.cfg.be == 0 {
 			store = baseMem[j.cfg.newState].Copy()
+			bc = chain.NewNode(store, j.cfg.newState)
 		} else {
+			// (blockchain.New allocates the 8 MB running event filter: one node for both stores)
 			store = backends[j.cfg.be].open()
-			if err := storeCopy(chain.NewNode(store, j.cfg.newState), base); err != nil {
+			bc = chain.NewNode(store, j.cfg.newState)
+			if err := storeCopy(bc, base); err != nil {
 				h.r.Infra("base store on %s: %v", cfg, err)
 			}
 		}
 		defer store.Close()
-		bc := chain.NewNode(store, j.cfg.newState)
 		if err := storeCopy(bc, e); err != nil {
 			h.r.Violate("reader/store rejected a valid state-update pattern", map[string]any{"cfg": cfg, "err": err.Error()})
 			return
